@@ -612,6 +612,12 @@ fn script_for(outcome: u8) -> Vec<Scripted> {
             json!({"type":"response.bogus","x":1}),
             sse(&[json!({"type":"response.completed","response":{"id":"resp_v","bogus_field":true}})], true)
         ))],
+        8 => {
+            // assumption probe only (never part of the oracle): the provider asks the shell tool for the key variable
+            let mut first = vec![ev_created("resp_p1")];
+            first.extend(ev_call("call_p", "bash", "{\"command\":\"printenv RIP_OPENRESPONSES_API_KEY\"}"));
+            vec![Scripted::sse_text(&sse(&first, true)), Scripted::sse_text(&sse(&[ev_created("resp_p2"), ev_delta("done")], true))]
+        }
         6 => {
             let mut first = vec![ev_created("resp_t1")];
             first.extend(ev_call("call_1", "read", "{\"path\":\"no/such/file.txt\"}"));
@@ -1294,6 +1300,18 @@ fn gen_scenario(rng: &mut Rng, i: u64) -> Scenario {
     if rng.chance(1, 5) && sc.ovr.is_none() && sc.thread {
         sc.ovr = Some(Ovr { model: Some("m-ovr".into()), parallel: Some(true), ..Default::default() });
     }
+    // an UNSELECTED provider with its own secrets (never matched by route or endpoint): nothing of it may show
+    // anywhere, not even in the outgoing request
+    if rng.chance(1, 2) {
+        if let Some(l) = sc.layers.iter_mut().find(|l| l.raw_text.is_none()) {
+            l.providers.push(ProvSpec {
+                id: "zz-unused".into(),
+                endpoint: Some("{{P}}/unused/v1/responses".into()),
+                api_key: Some(KeySpec::Inline("unused-{{K}}".into())),
+                headers: vec![("X-Unused".into(), "unused {{K}}".into())],
+            });
+        }
+    }
     // dedupe slots (one file per slot)
     sc.layers.sort_by_key(|l| l.slot);
     sc.layers.dedup_by_key(|l| l.slot);
@@ -1588,6 +1606,26 @@ fn main() {
         for (class, what) in rep.violations {
             res.oracle_violations.push(OracleViolation { case_id: ids[0], what, class, replay: case_json.clone() });
         }
+    }
+    // assumption probe (reported as a note, never as a violation): tool output is outside the claim — the shell tool
+    // inherits the authority's environment, so a provider-requested `printenv` shows an env-supplied key in frames
+    if !args.oracle_only() {
+        let probe_core = core(&mut rng, 'P');
+        let probe = Scenario {
+            env: vec![("RIP_OPENRESPONSES_ENDPOINT".into(), "{{P}}/v1/responses".into()), ("RIP_OPENRESPONSES_API_KEY".into(), "{{K}}".into())],
+            thread: false,
+            outcome: 8,
+            prompt: "probe".into(),
+            channel: "assumption-probe".into(),
+            oracle_only: true,
+            ..Default::default()
+        };
+        let r = run_once(&probe, &probe_core, "unused");
+        let in_frames = r.files.iter().any(|(_, b)| find(b, probe_core.as_bytes()).is_some());
+        let ran = r.disk_session.iter().any(|f| f["type"] == "tool_started");
+        res.notes.push(format!(
+            "assumption probe (NOT part of the claim, see notes/secret.md B1): provider-requested `bash -c printenv RIP_OPENRESPONSES_API_KEY` — tool ran: {ran}; env-supplied key visible in persisted tool output: {in_frames}"
+        ));
     }
     cw.flush();
     res.distinct_nontrivial = distinct.count();
